@@ -184,16 +184,26 @@ func main() {
 		props.AnchorRules(ctx)
 		if *tier == "thorough" {
 			results := replaySeeds(*verif, abs, *prop)
-			fired, applied := 0, 0
+			fired, applied, benign, silent := 0, 0, 0, 0
 			for _, r := range results {
-				if r.Skipped == "" {
-					applied++
-					if r.Fired {
-						fired++
+				if r.Skipped != "" {
+					continue
+				}
+				if r.Benign {
+					benign++
+					if !r.Fired {
+						silent++
 					}
+					continue
+				}
+				applied++
+				if r.Fired {
+					fired++
 				}
 			}
-			ctx.Extra = map[string]any{"seeded_total": len(results), "seeded_applied": applied, "seeded_fired": fired, "seeded_results": results}
+			ctx.Extra = map[string]any{"seeded_total": len(results) - benign, "seeded_applied": applied, "seeded_fired": fired, "benign_refactorings": benign, "benign_silent": silent, "seeded_results": results}
+			ctx.Stats["benign_refactorings"] = benign
+			ctx.Stats["benign_silent"] = silent
 			ctx.Stats["seeded_total"] = len(results)
 			ctx.Stats["seeded_fired"] = fired
 		}
